@@ -22,6 +22,7 @@ import EinxModel.Driver.Optimize
 import EinxModel.Driver.Denote
 import EinxModel.Driver.Shorthand
 import EinxModel.Driver.Reject
+import EinxModel.Driver.Grammar
 import EinxModel.Driver.OptDag
 import EinxModel.Driver.Lower
 import EinxModel.Driver.Lower2
@@ -55,6 +56,7 @@ def dispatch (j : Json) : R Json := do
   | "equiv" | "equiv_progs" | "kernel" => Einx.Driver.Optimize.handle j
   | "denote_fun" => Einx.Driver.Denote.handle j
   | "reject_spec" | "elab_rules" => Einx.Driver.Reject.handle j
+  | "grammar_spec" => Einx.Driver.Grammar.handle j
   | "optdag" => Einx.Driver.OptDag.handle j
   | "lower_model" => Einx.Driver.Lower.handle j
   | "lower_generic" => Einx.Driver.Lower2.handle j
